@@ -29,13 +29,21 @@ THEOREMS = [
     'CC.C14_translator_accepts',
     'CC.C14_adapters', 'CC.C14_sign', 'CC.C14_denotes_value', 'CC.C14_reverse_neg', 'CC.C14_arrow', 'CC.C14_factories',
     'CC.C14_ctors', 'CC.C14_lookup', 'CC.C14_lookup_params',
-    'CC.C14_denotes_real', 'CC.C14_denotes_complex', 'CC.C14_agree_real_cartesian', 'CC.C14_agree_magnitude',
+    'CC.C14_denotes_real', 'CC.C14_denotes_complex_shown_parts', 'CC.C14_agree_real_cartesian', 'CC.C14_agree_magnitude',
 ]
 OPEN_STATEMENTS = [
-    'C14_denotes at the level of the text is proved for the real annotations (CC.C14_denotes_real) and the Cartesian complex '
-    'annotations (CC.C14_denotes_complex: signs + each part text read back accurately), below 1e16 outside the rounds-up-to-one '
-    'region; polar and time-function texts are covered by the correspondence and the oracle only',
+    'C14_denotes at the level of the text is proved for the real voltage / current / potential annotations of a non-zero value '
+    '(CC.C14_denotes_real) — except power (|P| plus an arrow: oracle only) and the value 0 — below 1e16 outside the '
+    'rounds-up-to-one region',
+    'Cartesian complex annotations: CC.C14_denotes_complex_shown_parts states each branch with its is_zero condition, the signs '
+    'and the accuracy of the part texts; WHICH parts appear is false at full strength (open finding: parts the prefixes can '
+    'express are dropped) and values with a zero part (purely real / imaginary phasors) are outside its hypotheses; '
+    'C14_agree_real_cartesian covers re >= 0 only',
+    'polar and time-function texts: structure only (C14_agree_magnitude: both start with the print_abs text of the magnitude '
+    'handed to them — RMS for polar, peak for the time function; no statement that the numbers agree); their read-back and the '
+    'printed angle / phase accuracy are covered by the correspondence and the oracle only',
     'C14_agree for the numeric read-back of Cartesian vs polar (|q|, arg q are runtime parameters): oracle only',
+    'pins (restate generated definitions): C14_sign, C14_factories, C14_ctors',
 ]
 ASSUMPTIONS = c18.ASSUMPTIONS + [
     'the circuit solution (Circuit.solution.DCSolution / ComplexSolution on circuit_translator(schematic)) is the reference '
